@@ -220,17 +220,12 @@ MANIFEST = {
                  "tune2fs(8); counterexamples are replayed natively (gcc + ASan/UBSan) against the same sources.",
     "text": "Within each harness's stated bounds the verdict covers every value of the symbolic inputs (feature words, masks, block contents, "
             "bitmaps, geometry placements). This is a THIN set of slices of C11: no run of tune2fs main, no sequence of runs, no whole-file-system "
-            "traversal, no 'e2fsck afterwards checks clean'. Nine queries fail on the pinned tree on five genuine defects (see note).",
+            "traversal, no 'e2fsck afterwards checks clean'. Four genuine defects these harnesses found on the pinned tree are repaired (known_findings.txt).",
     "note": "Trusted: CBMC's C semantics and libc string models, the recording stubs and the byte-per-block bitmap stand-in, the harness's restatement "
-            "of the on-disk format and of tune2fs(8). Genuine defects of the pinned tree reported by the harnesses (each reproduced natively; the two "
-            "with a demo script also with the real binaries): (1) featureset[REQ=10], [REQ=17]: 'tune2fs -O none' / '-O clear' is accepted and wipes all "
-            "feature words, bypassing clear_ok_features (harness/C11/demo_O_none.sh); (2) movemap: get_move_bitmaps does not check that the enlarged inode "
-            "table fits in the (short last) group / the file system: accesses and later writes past the end (harness/C11/demo_I_short_last_group.sh); "
-            "(3) ingroup[CHECK=1] and moveblk: ext2fs_is_block_in_group accepts the first block of the NEXT group (blk <= end_blk), so a relocated bitmap may "
-            "leave its group; (4) moveblk: move_block's meta_data flag is never reset, so after one bitmap block every later data block must land in that "
-            "bitmap's group or the run fails with a spurious ENOSPC; (5) mntedit[TOK=8], [TOK=9], mntnames: e2p_string2mntopt reads the number of MNTOPT_<n> "
-            "from index 8 instead of 7: 'tune2fs -o MNTOPT_12' sets bit 2 (user_xattr), MNTOPT_9 is refused, e2p_mntopt2string's output does not parse back. "
-            "Candidate patches (not applied; each makes the failing queries pass): harness/C11/candidate_fix_*.diff.",
+            "of the on-disk format and of tune2fs(8). Repaired defects of the pinned tree these harnesses reported (fix: commits, known_findings.txt): tune2fs -O none bypassing "
+            "clear_ok_features (demo_O_none.sh), get_move_bitmaps ignoring the end of the group / file system (demo_I_short_last_group.sh), "
+            "ext2fs_is_block_in_group off by one, e2p_string2mntopt parsing MNTOPT_<n> at the wrong offset. Observed, not asserted: move_block never "
+            "resets meta_data (spurious ENOSPC refusal after a bitmap block moved).",
 }
 MANIFEST["assumptions"] = META["assumptions"]
 MANIFEST["outside"] = META["outside"]
